@@ -365,10 +365,10 @@ def run_shard(ctx: Ctx, rec: Recorder) -> None:
         for L in range(1, depth + 1):
             for seq in itertools.product(alpha, repeat=L):
                 idx += 1
-                if not ctx.mine(idx) or (L == depth and (idx // ctx.nshards) % stride):
+                if not ctx.mine(idx) or (L == depth and ctx.skip(idx, stride)):
                     continue
                 ops = [list(o) for o in seq]
-                if expected_family_mix(spec, ops) and (idx // ctx.nshards) % 10:
+                if expected_family_mix(spec, ops) and ctx.skip(idx, 10):
                     continue  # keep the (separately classified) mixed-parser stratum small
                 rec.case(["exh", list(spec), ops])
                 run_case(rec, spec, ops, rng)
